@@ -2407,7 +2407,7 @@ theorem loadJson_loadOrder_enables_reordering (f : JsonFile) (m m' : Mgr) (r : R
   simp only [if_true] at h
   obtain ⟨_, m1, _, h⟩ := M.dmp_bind_ok h
   generalize jsonTry f true m1 = tr at h
-  obtain ⟨rt, cache, m6⟩ := tr
+  obtain ⟨rt, cache, prev, m6⟩ := tr
   cases rt with
   | error e =>
     unfold jsonFinish at h
@@ -2416,7 +2416,7 @@ theorem loadJson_loadOrder_enables_reordering (f : JsonFile) (m m' : Mgr) (r : R
   | ok us =>
   unfold jsonFinish at h
   simp only [if_true] at h
-  generalize (releaseLoop true cache cache none m6) = rl at h
+  generalize (releaseFailed cache cache prev m6) = rl at h
   obtain ⟨rr, last, m7⟩ := rl
   dsimp only at h
   cases hfin : (liftE rr >>= fun _ => do
